@@ -87,6 +87,20 @@ def gen(rng, tier):
             if case['nts'] is not None:
                 case['nts'] = min(case['nts'], nm - 1)
         yield case
+    for case in gen_slow(rng, tier):
+        yield case
+
+
+def gen_slow(rng, tier):
+    for _ in range(1 if tier == 'quick' else 4):
+        # very slow but connected chains: second eigenvalue within 1e-5 of one, timescale > 1e5 lag times
+        k = rng.choice([2, 3])
+        labs = rng.sample([0, 1, 2, 4, 9], k)
+        dwell = rng.choice([200000, 250000, 300000])
+        # two states, or a star 0-1, 0-2 (a tree: reversible, hence a real spectrum)
+        order = [0, 1, 0, 1, 0] if k == 2 else [0, 1, 0, 2, 0, 1, 0, 2, 0]
+        rle = [[[labs[i], dwell + rng.randint(0, 99)] for i in order]]
+        yield {'k': 'its', 'trajs': None, 'rle': rle, 'lags': [1, rng.choice([2, 5])], 'nts': None, 'style': 'slow', 'lumped': False, 'alpha': 'slow'}
 
 
 def corpus():
@@ -127,7 +141,7 @@ def impl(case):
         out['lvals'] = [_c(v) for v in linalg.left_eigenvalues(M, nvals=case['nvals'])]
         out['rvals'] = [_c(v) for v in linalg.right_eigenvalues(M, nvals=case['nvals'])]
         return out
-    trajs = [np.array(t) for t in case['trajs']]
+    trajs = [np.array(t) for t in G.expand(case)]
     data = mh.LumpedStateTraj([np.array(t) for t in case['macro']], trajs) if case['lumped'] else trajs
     its = mh.msm.implied_timescales(data, case['lags'], ntimescales=case['nts'])
     rows = []
@@ -146,7 +160,7 @@ def impl(case):
 
 def requests(case):
     if case['k'] == 'its' and not case['lumped']:
-        return [[1003] + C.enested(case['trajs']) + [lag] for lag in case['lags']]
+        return [[1003] + C.enested(G.expand(case)) + [lag] for lag in case['lags']] if not case.get('rle') else []
     return []
 
 
@@ -178,7 +192,7 @@ def judge(case, ibc, answers):
                 # a lumped object refuses (TypeError) when the micro model at some lag is not ergodic (C03)
                 from props import c03
                 for lag in case['lags']:
-                    a = C.mrun([[301] + C.enested(case['macro']) + C.enested(case['trajs']) + C.ebool(False) + [lag]])[0]
+                    a = C.mrun([[301] + C.enested(case['macro']) + C.enested(G.expand(case)) + C.ebool(False) + [lag]])[0]
                     model, _, _, emicro = c03.decode(a)
                     if model[0] == 'err' or not (emicro[0] == 'ok' and emicro[1][2]):
                         refused = True
